@@ -360,6 +360,26 @@ def private_helper_of(F, fn, owners, depth=3):
     return None
 
 
+def _skips_exactly_none(F, ty, pred):
+    """a hand-written skip predicate of an Option member, evaluated: true on None, false on every Some(_)"""
+    import sym
+    name = pred.rsplit("::", 1)[-1]
+    mod = ty.rsplit("::", 1)[0]
+    cands = [f for f in F.find(r"(^|::)%s$" % re.escape(name)) if f.startswith(mod.split("::")[0] + "::") and "{closure" not in f]
+    near = [f for f in cands if f.startswith(mod + "::")] or cands
+    if len(near) != 1 or F.hir(near[0]) is None:
+        return False
+    try:
+        on_none = [q for q in sym.Evaluator(F, inline_depth=3).explore(near[0], args=[sym.V("None")])]
+        on_some = [q for q in sym.Evaluator(F, inline_depth=3).explore(near[0], args=[sym.V("Some", (sym.Sym(("param", "x")),))])]
+    except (sym.Abort, sym.TooManyPaths):
+        return False
+
+    def val(q):
+        return q.ret[1] if isinstance(q.ret, tuple) and q.ret[:1] == ("lit",) else q.ret
+    return bool(on_none) and bool(on_some) and all(q.complete and val(q) is True for q in on_none) and all(q.complete and val(q) is False for q in on_some)
+
+
 def serde_skip_inverse(rule, F, ty, reviewed=None):
     """Every `skip_serializing_if = "P"` of `ty` omits exactly the value the deserialiser restores for a missing member:
     Option fields with P = Option::is_none, collection fields with P = <T>::is_empty and #[serde(default)].
@@ -383,7 +403,7 @@ def serde_skip_inverse(rule, F, ty, reviewed=None):
             rule.exception("%s.%s" % (ty, f["name"]), "reviewed", reviewed[(ty, f["name"])])
             continue
         if fty.startswith("Option<"):
-            ok = pred == "Option::is_none"
+            ok = pred == "Option::is_none" or _skips_exactly_none(F, ty, pred)
             rule.require(ok, (ty, f["name"], "skip-predicate"), "%s.%s (an Option) is skipped by `%s`, not `Option::is_none`: a present value the predicate also skips (Some(false), Some(0), …) comes back as None" % (short(ty), f["name"], pred))
         else:
             ok = pred.endswith("::is_empty") and "default" in attrs
